@@ -143,7 +143,11 @@ def h_qr(ctx, M, N, D, P, full=False, sigma=1):
     A0s = []
     for p in range(P):
         Ms = M if N >= M else M
-        Qfull = rot2(ctx, 'p%d' % p, sigma) if M == 2 else rot3(ctx, 'p%d' % p, sigma)
+        if M == 1:
+            Qfull = np.empty((1, 1), dtype=object)
+            Qfull[0, 0] = (1.0 if ctx.mode == 'float' else S.const(1)) * sigma
+        else:
+            Qfull = rot2(ctx, 'p%d' % p, sigma) if M == 2 else rot3(ctx, 'p%d' % p, sigma)
         if N >= M:
             # square or wide: numpy's qr is called on the leading M x M block
             Rsq = upper(ctx, 'R%d' % p, M, M)
@@ -550,6 +554,14 @@ def units(tier, seed):
         add('svd/2x2/D2,P2', 'h_svd', o={'unit_timeout': 1500, 'crosscheck': False, 'path_budget': 600}, D=2, P=2)
     # Fortran-ordered coefficient matrices (and single-column operands): the layout that LAPACK
     # wrappers with overwrite_a=True destroy; `input unchanged` is part of every harness
+    # degenerate shapes: single column (both C- and Fortran-contiguous), single row, 1x1
+    for (M_, N_) in [(2, 1), (3, 1), (1, 2), (1, 1)]:
+        add('qr/%dx%d/D3,P2' % (M_, N_), 'h_qr', M=M_, N=N_, D=3, P=2)
+    add('qr_full/2x1/D3,P1', 'h_qr', M=2, N=1, D=3, P=1, full=True)
+    add('qr_full/3x1/D2,P2', 'h_qr', M=3, N=1, D=2, P=2, full=True)
+    add('cholesky/1x1/D4,P2', 'h_cholesky', n=1, D=4, P=2)
+    add('lu/1x1/D3,P2', 'h_lu', n=1, D=3, P=2, variant='lu')
+    add('lu_factor/1x1/D3,P2', 'h_lu', n=1, D=3, P=2, variant='lu_factor')
     W = {'dirty_out': True}
     add('qr/2x2/out= reused workspace/D3,P1', 'h_qr', o=W, M=2, N=2, D=3, P=1)
     add('qr/3x2/out= reused workspace/D2,P2', 'h_qr', o=W, M=3, N=2, D=2, P=2)
